@@ -13,7 +13,8 @@
    PARTIAL w.r.t. the Go runtime: that r.tombs is exactly the set of executing handlers relies on the runner's
    locking (Ensure holds r.mu and the state lock for the whole pass; a finishing goroutine deletes its tomb under both);
    this is modelled by the atomic events EEnsure / EDone, not verified. Cleanup handlers (TaskRunner.clean) are not
-   subject to the predicates (C07_cleanups_not_serialized). *)
+   subject to the predicates: the gadget-alone clause is refuted for them (C07_gadget_alone_refuted_by_cleanup, known
+   finding) and proved in guarded form. *)
 From Coq Require Import List NArith Bool.
 Import ListNotations.
 Require Import V.lib.Bytes V.models.Blocked V.proofs.BlockedProofs.
@@ -57,17 +58,38 @@ Theorem C07_no_two_prereq : forall evs a b,
 Proof. exact no_two_prereq. Qed.
 Print Assumptions C07_no_two_prereq.
 
-Theorem C07_gadget_alone : forall evs a,
+(* gadget-asset update alone — the full statement (while update-gadget-assets executes no other task has a goroutine)
+   is FALSE of the faithful model and of the real runner: see C07_gadget_alone_refuted_by_cleanup. What is proved:
+   among do/undo handlers it is alone (partial: cleanups excluded) ... *)
+Theorem C07_gadget_alone_among_handlers_partial : forall evs a,
   In a (handlers (run evs)) -> is_gadget a = true -> handlers (run evs) = [a].
 Proof. exact gadget_alone. Qed.
+Print Assumptions C07_gadget_alone_among_handlers_partial.
+
+(* ... it is literally alone in every history in which no cleanup goroutine is started (no ready change has an
+   uncleaned task of a kind with a cleanup handler: copy-snap-data, prepare-remodeling, set-model,
+   create-recovery-system, finalize-recovery-system) ... *)
+Theorem C07_gadget_alone : forall evs a,
+  no_clean evs = true -> In (a, false) (run evs) -> is_gadget a = true -> run evs = [(a, false)].
+Proof. exact gadget_alone_guarded. Qed.
 Print Assumptions C07_gadget_alone.
 
-(* cleanup goroutines are outside the exclusion: TaskRunner.clean does not consult the predicates and does not add to
-   `running`, so a cleanup can run next to update-gadget-assets *)
-Theorem C07_cleanups_not_serialized :
-  exists evs a c, In (a, false) (run evs) /\ is_gadget a = true /\ In (c, true) (run evs).
-Proof. exact cleanups_not_serialized. Qed.
-Print Assumptions C07_cleanups_not_serialized.
+(* ... and it is never STARTED while anything has a tomb, a cleanup from an earlier pass included *)
+Theorem C07_gadget_waits_for_running : forall t running,
+  is_gadget t = true -> running <> [] -> blocked t running = true.
+Proof. exact gadget_waits_for_running. Qed.
+Print Assumptions C07_gadget_waits_for_running.
+
+(* the unguarded statement refuted: TaskRunner.clean neither consults the blocked predicates nor adds the task to
+   `running`, so a cleanup goroutine can be started in the same pass as update-gadget-assets, or in a later pass while it
+   executes. Both witnesses are replayed on the real TaskRunner on every run (driver `cleanup`, KNOWN_FINDINGS key
+   cleanup-starts-next-to-gadget-update). *)
+Theorem C07_gadget_alone_refuted_by_cleanup :
+  (exists evs a, In (a, false) (run evs) /\ is_gadget a = true /\ run evs <> [(a, false)]) /\
+  run cleanup_witness_same_pass = [(mkT 1 (kd 14) None, true); (mkT 2 (kd 2) None, false)] /\
+  run cleanup_witness_later_pass = [(mkT 2 (kd 2) None, false); (mkT 1 (kd 14) None, true)].
+Proof. exact gadget_alone_refuted_by_cleanup. Qed.
+Print Assumptions C07_gadget_alone_refuted_by_cleanup.
 
 (* ---- non-vacuity *)
 Example C07_run_example :
